@@ -83,6 +83,7 @@ def static_spaces(tier):
         sp.append(("d:shapes,n<=2,L<=2", H(0, 2), ["x", "xy", "xy?", "x*k", "x*k?"], (0,), 1, 2, False))
         sp.append(("d3:shapes,n<=1,L=3", H(0, 1), ["x", "xy", "xy?", "x*k", "x*k?"], (0,), 3, 3, False))
         sp.append(("z:all-optional shapes (zero-argument calls),n<=2,L<=3,prio", H(0, 2), ["x?", "x?y?", "x"], (0, 1), 1, 3, False))
+        sp.append(("dk:mixed arity with a keyword-only parameter on the longer method,n<=2,L<=2", H(0, 2), ["x", "x*k", "xy*k"], (0, 1), 1, 2, False))
         sp.append(("k2:two typed keyword-only parameters in either declaration order / one optional,n<=2,L=2", H(1, 2), ["x*kj", "x*jk", "x*j?k", "x*kj?"], (0,), 2, 2, False))
     else:
         sp.append(("A:1pos,n<=5,L<=4,prio", H(0, 5), ["x"], (0, 1), 1, 4, False))
